@@ -441,6 +441,47 @@ def c16_kleene_star(t: T3, m: int, starts: int, finals: int) -> bool:
     return chx.judge("C16", cond, raw, (ctrans, cst, cfi), (res, tr), _star_oracle, realize_obs=False)
 
 
+def c16_edit(c0: int, c1: int, kind: int, starts: int, finals: int) -> bool:
+    """
+    pre: pinned(kind=kind, starts=starts, finals=finals, g=c0 % 4)
+    pre: ((0 <= c0) & (c0 < 16)) & ((0 <= c1) & (c1 < 16)) & (c0 != c1) & ((0 <= kind) & (kind < 4))
+    pre: ((1 <= starts) & (starts < 4)) & ((1 <= finals) & (finals < 4))
+    post: _
+    """
+    # a transducer that has already translated is edited through its public API and must translate as what it
+    # now is: kind 0 add the transition c1; 1 add q1 to the final states; 2 add q1 to the start states;
+    # 3 add the transition c1 and make q1 final
+    cond = "c16_edit"
+    raw = (c0, c1, kind, starts, finals)
+    first = SLOTS2[bpick(c0, 16)]
+    second = SLOTS2[bpick(c1, 16)]
+    kd = enc.pick(kind, 4)
+    sv, st = pmask(starts, 2)
+    fv, fi = pmask(finals, 2)
+    labels = ["q0", "q1"]
+    before = concrete_trans([first], labels, OUTS4)
+    extra = concrete_trans([second], labels, OUTS4)
+    after = before + (extra if kd in (0, 3) else [])
+    cst = [labels[q] for q in st]
+    cfi = [labels[q] for q in fi]
+    cst2 = sorted(set(cst) | ({"q1"} if kd == 2 else set()))
+    cfi2 = sorted(set(cfi) | ({"q1"} if kd in (1, 3) else set()))
+    if not _valid(before, cst, cfi) or not _valid(after, cst2, cfi2):
+        return chx.assumed_away(cond)
+    chx.enter(cond, raw)
+    fst = build_fst(before, cst, cfi)
+    _translations(fst, WORDS_RES)              # first use
+    if kd in (0, 3):
+        for (q, a, q2, outs) in extra:
+            fst.add_transition(q, F.EPS_MARK if a is None else a, q2, list(outs))
+    if kd in (1, 3):
+        fst.add_final_state("q1")
+    if kd == 2:
+        fst.add_start_state("q1")
+    obs = _translations(fst, WORDS_AZ)
+    return chx.judge("C16", cond, raw, (after, cst2, cfi2), obs, _translate_oracle)
+
+
 # state names that look like the names kleene_star() / the renaming invent ("star", name + counter)
 STAR_LABELS = [("star", "q1"), ("q0", "star"), ("star", "star0"), ("star0", "star"), ("star", "star1")]
 
@@ -799,4 +840,13 @@ CONDS = [
                    "(outputs {[],[x]}) x masks {start q0, final q1} / {all}, 2 transitions without output x one mask; " + VALID,
           "thorough": "2 transitions with outputs {[],[x]} x 3 masks"},
          F_STAR, "the FST has a transition and its star relates more than the empty pair", assumptions=ASSUME),
+    Cond("C16", c16_edit, lambda tier: product_pins(kind=[0, 1, 2, 3], starts=[1] if tier == "quick" else [1, 3],
+                                                    finals=[2] if tier == "quick" else [1, 2, 3], g=[0, 1, 2, 3]),
+         {"quick": "a 2-state FST with one transition (in {eps,a}, outputs {[],[x]}) translates [], [a], [a,a], is then "
+                   "edited through the public API (add another transition / make q1 final / make q1 a start state / "
+                   "both) and translates again: judged as the edited machine on every word <=2 over {a,z}; start q0, "
+                   "final q1; " + VALID,
+          "thorough": "start masks {q0} / {q0,q1}, every non-empty final mask"},
+         F_TRANSLATE,
+         "the edited FST relates some word of length <=2 to an output", assumptions=ASSUME),
 ]
